@@ -20,7 +20,7 @@ CONSTANTS V,        \* interface variables
           M,        \* [V -> set of method names] of the variable's interface type
           B,        \* builders
           MaxOps, Ops,
-          Kinds,    \* instruction kinds explored: subset of {"apply", "stub", "when"}
+          Kinds,    \* instruction kinds explored: subset of {"apply", "stub", "when", "seq"}
           Args      \* call arguments explored: subset of {7, 8}
 
 None == "none"
@@ -71,12 +71,12 @@ Mock(b, v, m, kind, via) ==
     /\ LET fresh == via = "lookup" /\ (cache[b][v] = 0 \/ ctx[cache[b][v]].canceled)
            newmm == via # "heldM" /\ (fresh \/ mm[b][v][m] = 0 \/ mm[b][v][m] \in mmc)
            id == IF newmm THEN nmm + 1 ELSE mm[b][v][m]
-           hasWhen == ~newmm /\ lastKind[b][v][m] \in {"stub", "when"} IN
+           hasWhen == ~newmm /\ lastKind[b][v][m] \in {"stub", "when", "seq"} IN
        /\ nmm' = IF newmm THEN nmm + 1 ELSE nmm
        /\ mm' = IF fresh THEN [mm EXCEPT ![b][v] = [x \in Meths |-> IF x = m THEN id ELSE 0]] ELSE [mm EXCEPT ![b][v][m] = id]
        /\ hm' = [hm EXCEPT ![b][v][m] = id]
        /\ UNCHANGED mmc
-       /\ IF hasWhen /\ kind \in {"stub", "when"}
+       /\ IF hasWhen /\ kind \in {"stub", "when", "seq"}
           THEN /\ exp' = [exp EXCEPT ![v] = IF @.orig THEN @ ELSE [@ EXCEPT !.f[m] = -1]]
                /\ UNCHANGED <<ivar, cache, ctx, nctx, heap, nobj, alive, objOf, lastKind, okind>>
                /\ Log([op |-> "Mock", b |-> b, v |-> v, m |-> m, kind |-> kind, via |-> via, id |-> nobj, obs |-> ObsVar(exp'), panic |-> ""])
@@ -131,7 +131,10 @@ GC == /\ "GC" \in Ops
 
 \* the context the variable's fabricated itab belongs to
 CtxOf(v) == CHOOSE i \in 1..Len(ctx) : ctx[i].var = v /\ ~ctx[i].canceled /\ \A j \in 1..Len(ctx) : (ctx[j].var = v /\ ~ctx[j].canceled) => j <= i
-Answer(o, a) == IF okind[o] = "when" /\ a # 7 THEN "panic:nocond" ELSE "repl:" \o ToString(o)
+\* kind "seq": As(f).Returns(r1, r2) - the first call that reaches the stub receives r1, every later one r2 (C05); okind[o]
+\* changes from "seq" to "seq-used" with the first call
+Answer(o, a) == IF okind[o] = "when" /\ a # 7 THEN "panic:nocond"
+                ELSE IF okind[o] = "seq-used" THEN "seq2:" \o ToString(o) ELSE "repl:" \o ToString(o)
 ImplCall(v, m, a) == IF ivar[v] = "orig" THEN "orig"
                   ELSE LET o == ctx[CtxOf(v)].fun[m] IN
                        IF o = 0 THEN "panic:notimpl" ELSE IF o \in heap THEN Answer(o, a) ELSE "crash"
@@ -140,7 +143,8 @@ ReqCall(v, m, a) == IF exp[v].orig THEN "orig"
                  ELSE IF exp[v].f[m] = 0 THEN "panic:notimpl" ELSE Answer(exp[v].f[m], a)
 Call(v, m, a) == /\ "Call" \in Ops /\ m \in M[v]
               /\ Log([op |-> "Call", v |-> v, m |-> m, a |-> a, res |-> ReqCall(v, m, a), ires |-> ImplCall(v, m, a), obs |-> ObsVar(exp), panic |-> ""])
-              /\ UNCHANGED <<ivar, cache, ctx, nctx, heap, nobj, alive, objOf, lastKind, owner, okind, mm, hm, nmm, mmc, exp>>
+              /\ okind' = (IF ~exp[v].orig /\ exp[v].f[m] > 0 /\ okind[exp[v].f[m]] = "seq" THEN [okind EXCEPT ![exp[v].f[m]] = "seq-used"] ELSE okind)
+              /\ UNCHANGED <<ivar, cache, ctx, nctx, heap, nobj, alive, objOf, lastKind, owner, mm, hm, nmm, mmc, exp>>
 
 Finish == Len(hist) = MaxOps /\ hist' = Append(hist, [op |-> "End"]) /\ UNCHANGED <<ivar, cache, ctx, nctx, heap, nobj, alive, objOf, lastKind, owner, okind, mm, hm, nmm, mmc, exp>>
 Next == \/ Finish
